@@ -20,7 +20,9 @@ var injectKinds = []string{"goto", "labelled-break", "labelled-continue", "selec
 	// constructs placed inside an otherwise trivial (non-yielding) loop of the generator body
 	"defer-in-plain-loop", "select-in-plain-loop", "labelled-range", "yield-as-value",
 	// constructs inside a range statement that stays native in a generator (pointer to array, function)
-	"defer-in-ptr-range", "defer-in-func-range", "select-in-ptr-range", "goto-in-func-range"}
+	"defer-in-ptr-range", "defer-in-func-range", "select-in-ptr-range", "goto-in-func-range",
+	// a yield in the initialiser of an if / else-if whose chain ALSO has a yielding branch
+	"yield-if-init-yielding-branch", "yield-elseif-init-yielding-branch", "yield-if-init-yielding-else"}
 
 // rawInject returns the source text of the construct (placeholders as in templates).
 func rawInject(kind string, tag func() int, control bool) string {
@@ -53,6 +55,12 @@ func rawInject(kind string, tag func() int, control bool) string {
 		return fmt.Sprintf("arr9 := [2]int{7, 8}\nfor _, v9 := range &arr9 {\n\t%s\n}", y("v9"))
 	case "yield-if-init":
 		return fmt.Sprintf("if «Yield»(97); len(\"x\") == 1 {\n\tvrt.E(%d)\n}", tag())
+	case "yield-if-init-yielding-branch":
+		return fmt.Sprintf("if «Yield»(75); len(\"x\") == 1 {\n\t«Yield»(74)\n}\nvrt.E(%d)", tag())
+	case "yield-elseif-init-yielding-branch":
+		return fmt.Sprintf("if len(\"x\") == 2 {\n\tvrt.E(%d)\n} else if «Yield»(73); len(\"x\") == 1 {\n\t«Yield»(72)\n}\nvrt.E(%d)", tag(), tag())
+	case "yield-if-init-yielding-else":
+		return fmt.Sprintf("if «Yield»(71); len(\"x\") == 2 {\n\tvrt.E(%d)\n} else {\n\t«Yield»(70)\n}", tag())
 	case "yield-switch-init":
 		return fmt.Sprintf("switch «Yield»(98); {\ndefault:\n\tvrt.E(%d)\n}", tag())
 	case "go-yield":
@@ -95,7 +103,7 @@ func rawInject(kind string, tag func() int, control bool) string {
 func Inject(r *prng.R, f *Func, tag func() int) Injection {
 	kinds := injectKinds
 	inj := Injection{Kind: kinds[r.Intn(len(kinds))], Control: r.Chance(1, 4)}
-	if inj.Control && (inj.Kind == "yield-if-init" || inj.Kind == "yield-switch-init" || inj.Kind == "go-yield" || inj.Kind == "yield-as-value" || strings.HasSuffix(inj.Kind, "-noyield")) {
+	if inj.Control && (strings.HasPrefix(inj.Kind, "yield-if") || strings.HasPrefix(inj.Kind, "yield-elseif") || inj.Kind == "yield-switch-init" || inj.Kind == "go-yield" || inj.Kind == "yield-as-value" || strings.HasSuffix(inj.Kind, "-noyield")) {
 		inj.Control = false // these constructs ARE a yield; there is no yield-free control of them
 	}
 	text := rawInject(inj.Kind, tag, inj.Control)
